@@ -324,7 +324,11 @@ namespace foonathan
 
             std::size_t def_capacity() const noexcept
             {
-                return arena_.current_block().size / pools_.size();
+                // a reservation must fit into a fresh block together with its fences and alignment padding,
+                // even if there is only a single pool
+                auto usable = arena_.current_block().size - 2 * detail::debug_fence_size
+                              - detail::max_alignment;
+                return usable / pools_.size();
             }
 
             detail::fixed_memory_stack allocate_block()
